@@ -70,7 +70,11 @@ pub fn install_panic_hook() {
                         let rest = &f[i + "/registry/src/".len()..];
                         rest.splitn(2, '/').nth(1).unwrap_or(rest).to_string()
                     }
-                    None => f.trim_start_matches("/repo/").to_string(),
+                    None => match f.find("/library/") {
+                        // /rustc/<hash>/library/core/... -> library/core/...
+                        Some(i) if f.starts_with("/rustc/") => f[i + 1..].to_string(),
+                        _ => f.trim_start_matches("/repo/").to_string(),
+                    },
                 };
                 format!("{}:{}", f, l.line())
             })
